@@ -245,13 +245,26 @@ CLAIMS["C14"] = {
     "note": "Partial by construction; added in the build round after the design had declared C14 not applicable (see DESIGN 12.7). " + _TB,
 }
 
+CLAIMS["C07"] = {
+    "text": "Decides only structural necessary conditions of C07, each by enumerating the call sequences of a small iterator "
+            "function under every valuation of the predicates it branches on and comparing them with the composition a sorted "
+            "map dictates: seek_ge/gt/le/lt are the right compositions of seek/next/prev/last; the merging iterator positions "
+            "every child, selects the head by a strict comparison among valid children, records its direction, and on a "
+            "direction change re-positions every non-current child relative to the current key; the two-level iterator steps, "
+            "re-seeks and skips empty blocks in the direction of the operation and its forward and backward halves are mirror "
+            "images; iterators hide entries newer than their sequence (shared with C06) and pin the memtables and version they "
+            "read (shared with C13). The position after a concrete call sequence, agreement of forward and backward traversals "
+            "on concrete data, the block-level search and the direction switch of db_iter.c are NOT decided.",
+    "design_ref": "DESIGN.md 12.9",
+    "technique": "static analysis: call-sequence enumeration on the clang CFG under assumed predicate valuations (composition "
+                 "tables), mirror-symmetry sibling agreement, guard dominance",
+    "note": "Partial by construction; added in the build round after the design had declared C07 not applicable (see DESIGN 12.9). " + _TB,
+}
+
 _PENDING = ("check not built yet in this revision; the property is listed here so that it is not claimed "
             "without machinery (see DESIGN.md for the planned rules)")
 
 NOT_APPLICABLE = {
-    "C07": "Positioning, completeness and bidirectional agreement of iterators are functions of the runtime key "
-           "sequence in merged children; no clause beyond version/memtable pinning (decided under C13) is visible "
-           "in code shape, and a structural proxy for the direction-switch logic would be a frozen fragment.",
 }
 for _p in ["C01", "C02", "C03", "C04", "C05", "C06", "C08", "C09", "C10", "C11", "C12", "C13", "C15", "C16",
            "C18", "C19", "C20"]:
